@@ -213,6 +213,20 @@ def o4_o5(prog, rep):
     z = {fieldname(norm(e.kid(0))): norm(e.kid(1)) for e in gp.all_elems() if e.is_assign and e.op == "=" and fieldname(norm(e.kid(0))) in ("events", "revents")}
     rep.check(z == {"events": ("c", 0), "revents": ("c", 0)}, "O5-stale", "a new pollfd starts with events = revents = 0", gp.loc, "%s" % z, function="growpollfd", construct="init")
     o5_map(u, rep, gp, cb)
+    # a new poll starts a new scan: after poll() has answered, the scan position is set to the last entry before the select
+    # routine reports success (the getter scans downwards from it; left where the previous scan ended, it finds nothing)
+    sel = [fx for fx in u.funcs if fx.file == u.path and any(True for _ in fx.calls("poll"))]
+    if len(sel) == 1:
+        sf = sel[0]
+        pc = list(sf.calls("poll"))[0]
+        rs = [e for e in sf.all_elems() if e.is_assign and e.op == "=" and norm(e.kid(0))[0] == "v" and norm(e.kid(0))[1] == "fdscanpos" and
+              norm(e.kid(1)) in (("-", ("v", "nfds", norm(e.kid(1))[1][2] if len(norm(e.kid(1))) > 2 and len(norm(e.kid(1))[1]) > 2 else None), ("c", 1)),) ]
+        okr = [r for r in sf.returns() if r.kids and norm(r.kid(0)) == ("c", 0)]
+        ok = bool(rs) and bool(okr) and all(any(sf.dominates(x, r) and (pc.block.id in sf.dominators().get(x.block.id, ()) or pc.block.id == x.block.id) for x in rs) for r in okr)
+        rep.check(ok, "O5-stale", "%s: a successful poll restarts the scan at the last entry" % sf.name, sf.loc,
+                  "no `fdscanpos = nfds - 1` between poll() and the success return", function=sf.name, construct="scan-reset")
+    else:
+        rep.defer_broken("O5: the function that calls poll() was not found in events_network.c")
     g = u.func("events_network_get")
     wid = [e for e in g.all_elems() if e.is_assign and e.op == "|=" and fieldname(norm(e.kid(0))) == "revents"]
     ok = len(wid) == 1 and fieldname(norm(wid[0].kid(1))) == "events" and norm(wid[0].kid(1))[1] == norm(wid[0].kid(0))[1]
@@ -434,6 +448,23 @@ def o6_double(prog, rep):
             narrow.append(e)
     secs = [e for e in f.all_elems() if e.is_assign and e.op == "=" and norm(e.kid(0))[0] == "." and norm(e.kid(0))[2] == "tv_sec"]
     oks = len(secs) == 1 and norm(secs[0].kid(1)) == T
+    # tv_usec is what is left of the timeout after the whole seconds, times a million
+    us = [e for e in f.all_elems() if e.is_assign and e.op == "=" and norm(e.kid(0))[0] == "." and norm(e.kid(0))[2] == "tv_usec"]
+    oku = len(us) == 1 and len(secs) == 1
+    if oku:
+        r = norm(us[0].kid(1))
+        sec_t = norm(secs[0].kid(0))
+        lits = [x for x in us[0].kid(1).walk() if x.cls == "FloatingLiteral"] if hasattr(us[0].kid(1), "walk") else []
+        mill = None
+        for x in f.all_elems():
+            if x.cls in ("FloatingLiteral", "IntegerLiteral") and x.line == us[0].line:
+                try:
+                    mill = float(x.text.rstrip("fFlL"))
+                except ValueError:
+                    pass
+        oku = r[0] == "*" and any(y == ("-", T, sec_t) for y in r[1:]) and mill == 1000000.0 and f.dominates(secs[0], us[0])
+    rep.check(oku, "O6-notearly", "events_timer_register_double: tv_usec = (timeout - tv_sec) * 1000000", (us[0].where if us else f.loc),
+              "tv_usec = %s" % (show(norm(us[0].kid(1))) if us else "?"), function=f.name, construct="double-usec")
     rep.check(oks and not narrow, "O6-notearly", "events_timer_register_double converts the timeout without narrowing", f.loc,
               ("tv_sec = %s; " % (show(norm(secs[0].kid(1))) if secs else "?")) + ("a %d-bit integer holds part of the timeout at %s" % (8 * ((u.types.get(narrow[0].ty) or {}).get("size") or 0), narrow[0].loc) if narrow else "no narrow integer"),
               function=f.name, construct="double-conversion")
@@ -693,6 +724,18 @@ def o7_slotrange(prog, rep):
             i = A.lin(c.arg(1), st)
             rep.check(i is not None and A.holds(st, "<", i, Lin.var(SIZE)), "O7-slotrange", "%s in %s: the index is below the table's size" % (c.text[:40], name), c.where,
                       "index %s, size $tablesize: not provably inside the table" % (i,), function=name, construct="slot-index")
+        # the table only grows: the helper that resizes it is asked for more records than there are (asked for fewer, it
+        # drops the records -- and registrations -- of every higher descriptor)
+        if grow is not None and name != "growsocketlist":
+            for c in f.calls("growsocketlist"):
+                st = A.state_before(c)
+                if st is None:
+                    continue
+                n += 1
+                want = A.lin(c.arg(0), st)
+                rep.check(want is not None and A.holds(st, ">", want, Lin.var(SIZE)), "O7-slotrange", "%s grows the table only to a larger size" % name, c.where,
+                          "growsocketlist(%s) is reachable with that count not above the table's size: the table would shrink under registrations that exist" % show(norm(c.arg(0))),
+                          function=name, construct="grow-only")
         if name == "events_network_cancel":
             sp = ("v", f.params[0]["name"], f.params[0]["id"])
             for e in f.all_elems():
